@@ -221,7 +221,8 @@ def run_case(case):
                 res.labels.append("kink")
                 continue
             fr = (4 * f2 - f1) / 3.0                       # Richardson-extrapolated central difference
-            tol = tolrel * (1 + abs(fr)) + 1e-7 + 4 * abs(f1 - f2)   # never tighter than what the two step sizes resolve
+            # never tighter than what the two step sizes resolve, nor than the rounding noise u*|s|/h of the differences themselves
+            tol = tolrel * (1 + abs(fr)) + 1e-7 + 4 * abs(f1 - f2) + 64 * 2.2e-16 * abs(float(s)) / 5e-7
             err = abs(an - fr)
             f1 = fr
             res.see_ratio(err, tol)
